@@ -94,8 +94,20 @@ def _replay_payload(kind, schema, inst, model, **kw):
     val = concretize(inst.value, model)
     d = {"kind": kind, "schema_text": schema.text(), "schema": _schema_json(schema), "top": schema.top,
          "value": to_json(val)}
+    try:
+        from ..shapes import decoy_of
+        d["decoy_text"] = decoy_of(schema).text()
+    except Exception:
+        pass
     d.update(kw)
     return d
+
+
+def prime_with_decoy(serde, schema):
+    """The property must hold whatever the process did before: exercise the codec on a same-named but different
+    schema first (concretely).  Failures of the decoy itself are irrelevant here."""
+    from ..prime import prime, decoy_text
+    prime(decoy_text(schema), ("serde", "layout"))
 
 
 def _schema_json(s: Schema):
@@ -107,6 +119,7 @@ def c01_case(args):
     schema, tier = args
     serde = _setup()
     res = new_result()
+    prime_with_decoy(serde, schema)
     fcp = parse(schema.text())
     feats = features_of(schema)
     known = Known("C01")
@@ -223,6 +236,7 @@ def c02_case(args):
     schema, tier = args
     serde = _setup()
     res = new_result()
+    prime_with_decoy(serde, schema)
     fcp = parse(schema.text())
     feats = features_of(schema)
     known = Known("C02")
@@ -367,6 +381,7 @@ def c16_case(args):
     schema, tier = args
     serde = _setup()
     res = new_result()
+    prime_with_decoy(serde, schema)
     fcp = parse(schema.text())
     feats = features_of(schema)
     known = Known("C16")
@@ -408,13 +423,20 @@ def c16_case(args):
             break
         canon = refspec.canon_bytes(schema, T, inst.value)
         data = _as_symbytes(canon)
+        # history: the complete message is decoded before its prefixes (a receiver sees good frames first)
+        try:
+            zero = [0] * len(canon)
+            serde.decode(fcp, top, [255] * (len(canon) + 4))
+        except Exception:
+            pass
         # (a) every strict prefix of a valid encoding must be rejected
         for k in range(len(data)):
             if _red(res) or res["violations"]:
                 break
             def mk(m, wb, k=k):
                 cb = [m.eval(b, model_completion=True).as_long() for b in canon][:k]
-                return _replay_payload("serde_truncated", schema, inst, m, data=cb, work_bound=wb,
+                full = [m.eval(b, model_completion=True).as_long() for b in canon]
+                return _replay_payload("serde_truncated", schema, inst, m, data=cb, work_bound=wb, full=full,
                                        why=f"strict prefix ({k} of {len(canon)} bytes) of a valid encoding")
             must_raise(Engine(timeout_ms=tmo), data[:k], inst.assume, f"{feats['desc']}|inst{ii}|prefix{k}",
                        f"decode accepted a strict prefix ({k}/{len(canon)} bytes) on {feats['desc']}", mk,
